@@ -1,7 +1,7 @@
 (* C15 -- the same document always yields the same model.
    Statements only (proofs: Proofs/C15P.v).  `load` (Model/Loader.v) is a Gallina function: the same document gives
    the same flat model, with every iteration order the code takes from Python containers made explicit
-   (insertion order of dicts, document order of findall; the code after the fix: commits cb3fd7e (F11) and 9e0bca6).  What needs a
+   (insertion order of dicts, document order of findall; the code after the fix: commits cb3fd7e (F11), 9e0bca6 and 3781b42).  What needs a
    proof is that the ORDER of the order-free parts of a document does not matter.  Quantified over all documents
    and all permutations.
 
@@ -46,27 +46,24 @@ Theorem C15_groups_permutation : forall mc ue us cs gs gs' ks, Permutation gs gs
 Proof. exact groups_permutation. Qed.
 Print Assumptions C15_groups_permutation.
 
-(* FULL STRENGTH (still false, see C15_connection_ends_swap_refuted):
-     forall ..., load (mkDoc mc ue us cs gs (l1 ++ swap_conn k :: l2)) = load (mkDoc mc ue us cs gs (l1 ++ k :: l2)).
-   After the fix: commit 9e0bca6 the direction decision is symmetric for siblings, for parent and child and for
-   unrelated components (C15_direction_symmetric).  The one remaining exception is a document whose <group>
-   elements make each of the two components the parent of the other -- a cycle in the encapsulation hierarchy,
-   which the loader does not refuse; the guard mutual_b = false excludes exactly that. *)
-Theorem C15_connection_ends_swap_partial : forall mc ue us cs gs l1 k l2,
-  (forall names vars ps, add_components (mkDoc mc ue us cs gs (l1 ++ k :: l2)) = OK (names, vars) ->
-     add_relationships names gs = OK ps -> mutual_b names ps (k_c1 k) (k_c2 k) = false) ->
+(* FULL STRENGTH: for every document, writing a connection with component_1 / component_2 and variable_1 / variable_2
+   exchanged gives the identical result -- the same error or the identical model.  The direction decision is
+   symmetric unless two components are each other's parent (C15_direction_symmetric), and a hierarchy that passes
+   the forest check of _add_relationships (fix: commit 3781b42) has no such pair (C15_forest_no_mutual_parents). *)
+Theorem C15_connection_ends_swap : forall mc ue us cs gs l1 k l2,
   load (mkDoc mc ue us cs gs (l1 ++ swap_conn k :: l2)) = load (mkDoc mc ue us cs gs (l1 ++ k :: l2)).
-Proof. exact ends_swap_guard. Qed.
-Print Assumptions C15_connection_ends_swap_partial.
+Proof. exact ends_swap. Qed.
+Print Assumptions C15_connection_ends_swap.
 
 Theorem C15_direction_symmetric : forall vars names ps c1 v1 c2 v2, mutual_b names ps c1 c2 = false ->
   direction vars names ps c2 v2 c1 v1 = direction vars names ps c1 v1 c2 v2.
 Proof. exact direction_sym. Qed.
 Print Assumptions C15_direction_symmetric.
 
-Theorem C15_connection_ends_swap_refuted : exists f e, load (refute_doc false) = OK f /\ load (refute_doc true) = Error e.
-Proof. exact ends_swap_refuted. Qed.
-Print Assumptions C15_connection_ends_swap_refuted.
+Theorem C15_forest_no_mutual_parents : forall names gs ps c1 c2,
+  add_relationships names gs = OK ps -> mutual_b names ps c1 c2 = false.
+Proof. exact forest_no_mutual. Qed.
+Print Assumptions C15_forest_no_mutual_parents.
 
 (* equations inside a <math> element, <math> elements inside a component, and moving equations between the <math>
    elements of a component: components keep name, variables and flags (same_shell), the multiset of
